@@ -259,6 +259,15 @@ def check_case(case, rec, lib, sp=None):
         rec.violation("roundtrip/verify_signable/accepts-above-signer-count-with-relabelled-copies",
                       "%d signers, their entries copied under other labels of the same keys, threshold %d accepted" % (kcount, kcount + 1),
                       dict(case, relabelled=sorted(set(e6["signatures"]) - set(env["signatures"]))))
+    # ... also when the caller's key list names those other labels too (a list that spells one key twice is malformed or, at most,
+    # names one key): refused as a bad argument or for lack of signers - never accepted
+    relabels = [k for k in e6["signatures"] if k not in env["signatures"]]
+    o = boundary.call(lib, A.verify_signable, e6, auth + relabels, kcount + 1)
+    rec.count("threshold_checks")
+    if o.accepted:
+        rec.violation("roundtrip/verify_signable/accepts-above-signer-count-with-relabelled-copies-also-listed-as-authorized",
+                      "%d signers; their entries copied under other labels of the same keys and those labels listed as authorized too; threshold %d accepted"
+                      % (kcount, kcount + 1), dict(case, relabelled=sorted(relabels)))
     # single-key authorized subsets
     one = rng.choice(ks)
     o = boundary.call(lib, A.verify_signable, env, [one.hex], 1)
